@@ -76,3 +76,16 @@ Definition c17_ser_recv_in (sha256 : bytes -> bytes) (cmds : list bytes) (fuel :
   : result (bytes * (bytes * bytes * bytes * bytes * Z)) :=
   fr <- msg_ser_in sha256 cmds magic c p ;;
   r <- c17_recv_msg sha256 fuel magic (fr ++ rest) sched ;; Ok (fr, r).
+
+(* ---- extension (Props/C17Ext.v): getblocks_payload (optional protocol_version), headers_payload ---- *)
+Require Import Bits.Model.P2pCodecExt.
+Require Bits.Spec.P2pHeaders.
+Definition c17_getblocks_payload := getblocks_payload_opt.
+(* build, then the repo's parser of the same layout *)
+Definition c17_getblocks_rt (hs : list bytes) (pv : option Z) :=
+  p <- getblocks_payload_opt hs pv ;; r <- parse_getheaders_payload p ;; Ok (p, r).
+Definition c17_headers_payload := headers_payload.
+(* the reference receiver of a headers message (the SPECIFICATION), and build-then-receive *)
+Definition c17_spec_parse_headers := Bits.Spec.P2pHeaders.spec_parse_headers.
+Definition c17_headers_rt (count : Z) (hs : list bytes) :=
+  p <- headers_payload count hs ;; Ok (p, Bits.Spec.P2pHeaders.spec_parse_headers p).
